@@ -8,6 +8,16 @@ FINDINGS = []
 
 # failing calls the undo protocol handles correctly (state must be restored exactly): replayed on every run, with every fault k
 CLEAN = [
+    # a pending, still unflushed remove() / add() on a many-to-many collection, then a failing call that went through Set.__set__ as a
+    # reverse call (refused delete(); set() failing on a later collection): the undo must give back added / removed exactly (its snapshot
+    # must be a copy: the tail updates those sets in place when they are non-empty)
+    {'name': 'pending-remove-then-refused-delete', 'schema': 'S1',
+     'ops': [["new", 0, 1, [[5, ["i", 0]]]], ["new", 2, 1, [[1, ["os", [0]]]]], ["new", 2, 2, [[1, ["os", [0]]]]], ["new", 2, 3, [[1, ["os", [0]]]]],
+             ["new", 5, 1, [[1, ["o", 0]]]], ["commit"], ["rem", 0, 7, [1]], ["del", 0], ["commit"], ["del", 0]]},
+    {'name': 'pending-add-then-set-fails-on-later-collection', 'schema': 'S1',
+     'ops': [["new", 0, 1, [[5, ["i", 0]]]], ["new", 2, 1, [[1, ["os", [0]]]]], ["new", 2, 2, []], ["new", 2, 3, []],
+             ["new", 5, 1, [[1, ["o", 0]]]], ["commit"], ["add", 0, 7, [2]], ["setm", 0, [[7, ["os", [1, 2, 3]]], [10, ["os", []]]]], ["commit"],
+             ["rem", 0, 7, [1]], ["setm", 0, [[7, ["os", []]], [10, ["os", []]]]]]},
     {'name': 'set-collection-kwarg-not-undone', 'schema': 'S1',       # formerly a finding; repaired in /repo
      'ops': [["new", 0, 1, [[5, ["i", 0]]]], ["new", 2, 1, []], ["new", 5, 1, [[1, ["o", 0]]]],
              ["setm", 0, [[7, ["os", [1]]], [10, ["os", []]]]]]},
